@@ -277,4 +277,134 @@ theorem C02_siblings (cfg : PartCfg) (num : Dict Str (List NumAttr)) (c : Bool) 
   have hw' : walkL cfg num c s ((itemsOf ks).flatMap Item.src) = .ok s1 := by rw [itemsOf_src]; exact hw
   exact C02_items_finished cfg num c (itemsOf ks) s s1 s' hok hs h0 hw' hq hf
 
+/-! ## a whole part -/
+
+/-- walking a wrapper the walk does not know (`w:hdr`, `w:ftr`, `w:footnotes`, `w:body`, `w:document` …):
+set the caret (after concluding a pending implicit paragraph if the wrapper has a depth), walk the
+children, conclude a pending implicit paragraph again if it has a depth, reset the caret -/
+def wrapperTag (pt : Str) : Prop := tagMember pt = none ∨ tagMember pt = some "BODY" ∨ tagMember pt = some "DOCUMENT"
+
+theorem walk_wrapper (cfg : PartCfg) (num : Dict Str (List NumAttr)) (c : Bool) (s s' : DC)
+    (i : Nat) (pf : Option Str) (t : QName) (m : NsMap) (a : List (QName × Str)) (tx tl : Option Str) (ks : List Xml)
+    (hm : wrapperTag (Xml.elem i pf t m a tx tl ks).ptag)
+    (h : walk cfg num c s (.elem i pf t m a tx tl ks) = .ok s') :
+    ∃ s1 s3 s4, s.setCaretOpen (elemDepth (.elem i pf t m a tx tl ks)) (some t.name) = .ok s1 ∧
+      walkL cfg num (c || isCellTag (.elem i pf t m a tx tl ks)) s1 ks = .ok s3 ∧
+      s3.flushImplicit (elemDepth (.elem i pf t m a tx tl ks)) = .ok s4 ∧
+      s4.setCaret (elemDepth (.elem i pf t m a tx tl ks)) none = .ok s' := by
+  have hl : ((Xml.elem i pf t m a tx tl ks).ptag == hyperlinkTag) = false := by
+    cases hb : ((Xml.elem i pf t m a tx tl ks).ptag == hyperlinkTag) with
+    | false => rfl
+    | true =>
+      have e : (Xml.elem i pf t m a tx tl ks).ptag = hyperlinkTag := by simpa using hb
+      unfold wrapperTag at hm
+      rw [e, tagMember_hyperlink] at hm; rcases hm with hm | hm | hm <;> simp at hm
+  simp only [walk, hl, Bool.false_eq_true, if_false] at h
+  obtain ⟨s1, h1, h⟩ := bind_ok h
+  obtain ⟨roots, hr, h⟩ := bind_ok h
+  have := pure_ok hr; subst this
+  have hop : openStep cfg s1 (.elem i pf t m a tx tl ks) c [] = .ok (s1, true) := by
+    unfold openStep; rcases hm with hm | hm | hm <;> (rw [hm]; rfl)
+  rw [hop] at h
+  simp only [ok_bind, if_true] at h
+  obtain ⟨s3, h3, h⟩ := bind_ok h
+  obtain ⟨s4, h4, h⟩ := bind_ok h
+  obtain ⟨s0, h0, hc⟩ := closeStep_split cfg s3 s4 _ h4
+  have hcore : closeStepCore cfg s0 (.elem i pf t m a tx tl ks) = .ok s0 := by
+    unfold closeStepCore; rcases hm with hm | hm | hm <;> (rw [hm]; rfl)
+  rw [hcore] at hc; cases hc
+  exact ⟨s1, s3, _, h1, h3, h0, h⟩
+
+/-- the flush at the end of a wrapper moves a pending paragraph from "open" to "in the tree": `leavesP` is unchanged -/
+theorem flushImplicit_leavesP (s s' : DC) (d : Option Nat)
+    (ho : s.openPars = [] ∨ ∃ p, s.openPars = [p] ∧ p.elem = none) (h : s.flushImplicit d = .ok s') :
+    leavesP s' = leavesP s ∧ (s'.openPars = [] ∨ ∃ p, s'.openPars = [p] ∧ p.elem = none) ∧ s'.queued = s.queued := by
+  have hq := (flushImplicit_keeps s s' d h).1
+  rcases flushImplicit_cases s s' d h with e | e
+  · subst e; exact ⟨rfl, ho, rfl⟩
+  · rcases ho with h0 | ⟨p, h1, _⟩
+    · unfold DC.concludePar at e
+      simp only [h0, List.getLast?_nil] at e
+      have := pure_ok e; subst this; exact ⟨rfl, Or.inl h0, rfl⟩
+    · obtain ⟨hl, hop, _⟩ := concludePar_spec s s' p (by rw [h1]; rfl) e
+      have h0' : s'.openPars = [] := by rw [hop, h1]; rfl
+      exact ⟨by simp [leavesP, hl, h0', h1], Or.inl h0', hq⟩
+
+/-- **a part whose root is a wrapper the walk does not know (header, footer, notes, comments, a body):**
+if its children form a sequence of paragraphs, regular tables, ignored markup and groups of inline
+content outside paragraphs, then `new_depth_collector` returns a tree whose leaf paragraphs are
+exactly the records of these items, in document order. (`hq`: no note label is left queued when the
+walk ends — true of parts without notes; with notes the label opens the note's first paragraph.) -/
+theorem C02_part (cfg : PartCfg) (num : Dict Str (List NumAttr)) (c : Bool) (dc : DC)
+    (i : Nat) (pf : Option Str) (t : QName) (m : NsMap) (a : List (QName × Str)) (tx tl : Option Str) (ks : List Xml)
+    (hm : wrapperTag (Xml.elem i pf t m a tx tl ks).ptag) (hok : itemsOK ks = true)
+    (hq : ∀ s5, walk cfg num c ({ bullets := { numAttrs := num } } : DC) (.elem i pf t m a tx tl ks) = .ok s5 → s5.queued = [])
+    (h : newDepthCollector cfg num (.elem i pf t m a tx tl ks) c = .ok dc) :
+    ∃ outs, ItemsMatch cfg (itemsOf ks) outs ∧ leafParsL dc.root = outs.flatMap (ioLeaves cfg.dup) := by
+  unfold newDepthCollector at h
+  obtain ⟨s5, hw, hf⟩ := bind_ok h
+  have hq5 := hq s5 hw
+  obtain ⟨s1, s3, s4, h1, h3, h4, h5⟩ := walk_wrapper cfg num c _ s5 i pf t m a tx tl ks hm hw
+  -- the initial state: nothing open, nothing collected
+  have i0 : Inv ({ bullets := { numAttrs := num } } : DC) := init_inv _
+  have hni0 : NoImpl ({ bullets := { numAttrs := num } } : DC) := noImpl_of_closed rfl
+  rw [setCaretOpen_noImpl _ _ _ hni0] at h1
+  have f1 := setCaret_frame _ s1 _ _ h1
+  have i1 := setCaret_inv _ s1 _ _ i0 h1
+  have ho1 : s1.openPars = [] := by rw [f1.openPars]
+  have hl1 : leafParsL s1.root = [] := by rw [f1.leaves]; rfl
+  have h3' : walkL cfg num (c || isCellTag (.elem i pf t m a tx tl ks)) s1 ((itemsOf ks).flatMap Item.src) = .ok s3 := by
+    rw [itemsOf_src]; exact h3
+  obtain ⟨outs, hmatch, hl3, _, hfin3⟩ := C02_items cfg num _ (itemsOf ks) false s1 s3 hok i1 (fun _ => ho1) (by intro e; cases e) h3'
+  obtain ⟨hl4, hfin4, hq4⟩ := flushImplicit_leavesP s3 s4 _ hfin3 h4
+  have f5 := setCaret_frame s4 s5 _ _ h5
+  have hfin5 : s5.openPars = [] ∨ ∃ p, s5.openPars = [p] ∧ p.elem = none := by rw [f5.openPars]; exact hfin4
+  have hl5 : leavesP s5 = leavesP s4 := by simp [leavesP, f5.leaves, f5.openPars]
+  refine ⟨outs, hmatch, ?_⟩
+  rw [finish_leaves cfg s5 dc hq5 hfin5 hf, hl5, hl4, hl3]
+  simp [leavesP, hl1, ho1]
+
+/-- **the main document part**: `w:document` holding one `w:body` -/
+theorem C02_document (cfg : PartCfg) (num : Dict Str (List NumAttr)) (c : Bool) (dc : DC)
+    (i : Nat) (pf : Option Str) (t : QName) (m : NsMap) (a : List (QName × Str)) (tx tl : Option Str)
+    (i' : Nat) (pf' : Option Str) (t' : QName) (m' : NsMap) (a' : List (QName × Str)) (tx' tl' : Option Str) (ks : List Xml)
+    (hd : (Xml.elem i pf t m a tx tl [.elem i' pf' t' m' a' tx' tl' ks]).ptag = documentTag)
+    (hb : (Xml.elem i' pf' t' m' a' tx' tl' ks).ptag = bodyTag) (hok : itemsOK ks = true)
+    (hq : ∀ s5, walk cfg num c ({ bullets := { numAttrs := num } } : DC) (.elem i pf t m a tx tl [.elem i' pf' t' m' a' tx' tl' ks]) = .ok s5 → s5.queued = [])
+    (h : newDepthCollector cfg num (.elem i pf t m a tx tl [.elem i' pf' t' m' a' tx' tl' ks]) c = .ok dc) :
+    ∃ outs, ItemsMatch cfg (itemsOf ks) outs ∧ leafParsL dc.root = outs.flatMap (ioLeaves cfg.dup) := by
+  have tmd : tagMember documentTag = some "DOCUMENT" := by decide
+  have tmb : tagMember bodyTag = some "BODY" := by decide
+  have wd : wrapperTag (Xml.elem i pf t m a tx tl [.elem i' pf' t' m' a' tx' tl' ks]).ptag := by rw [hd]; exact Or.inr (Or.inr tmd)
+  have wb : wrapperTag (Xml.elem i' pf' t' m' a' tx' tl' ks).ptag := by rw [hb]; exact Or.inr (Or.inl tmb)
+  have edd : elemDepth (.elem i pf t m a tx tl [.elem i' pf' t' m' a' tx' tl' ks]) = none := by
+    unfold elemDepth; rw [hd]; simp
+  have edb : elemDepth (.elem i' pf' t' m' a' tx' tl' ks) = none := by
+    unfold elemDepth; rw [hb]; simp
+  unfold newDepthCollector at h
+  obtain ⟨s5, hw, hf⟩ := bind_ok h
+  have hq5 := hq s5 hw
+  obtain ⟨s1, s3, s4, h1, h3, h4, h5⟩ := walk_wrapper cfg num c _ s5 i pf t m a tx tl _ wd hw
+  rw [edd] at h1 h4 h5
+  have e1 := Except.ok.inj ((setCaretOpen_none _ _).symm.trans h1)
+  have e4 := Except.ok.inj ((flushImplicit_none s3).symm.trans h4)
+  have e5 : s4 = s5 := Except.ok.inj (by rw [← h5]; rfl)
+  subst e1; subst e4; subst e5
+  -- the body
+  simp only [walkL] at h3
+  obtain ⟨sb, hwb, h3⟩ := bind_ok h3
+  have := pure_ok h3; subst this
+  obtain ⟨b1, b3, b4, g1, g3, g4, g5⟩ := walk_wrapper cfg num (c || isCellTag (.elem i pf t m a tx tl [.elem i' pf' t' m' a' tx' tl' ks])) _ sb i' pf' t' m' a' tx' tl' ks wb hwb
+  rw [edb] at g1 g4 g5
+  have f1 := Except.ok.inj ((setCaretOpen_none _ _).symm.trans g1)
+  have f4 := Except.ok.inj ((flushImplicit_none b3).symm.trans g4)
+  have f5 : b4 = sb := Except.ok.inj (by rw [← g5]; rfl)
+  subst f1; subst f4; subst f5
+  have g3' : walkL cfg num ((c || isCellTag (.elem i pf t m a tx tl [.elem i' pf' t' m' a' tx' tl' ks])) || isCellTag (.elem i' pf' t' m' a' tx' tl' ks)) ({ bullets := { numAttrs := num } } : DC) ((itemsOf ks).flatMap Item.src) = .ok b3 := by
+    rw [itemsOf_src]; exact g3
+  obtain ⟨outs, hmatch, hl3, _, hfin3⟩ := C02_items cfg num _ (itemsOf ks) false _ b3 hok (init_inv _) (fun _ => rfl) (by intro e; cases e) g3'
+  refine ⟨outs, hmatch, ?_⟩
+  rw [finish_leaves cfg b3 dc hq5 hfin3 hf, hl3]
+  simp [leavesP, leafParsL]
+
 end D2P
